@@ -112,6 +112,9 @@ def common(run, modules):
     for lm in LOAD.get(run.pid, []):
         lok_, llog_ = R.lake_build(run, [lm], timeout=900)
         run.oblige("lake build %s (the word-filtered search over the machine-translated leaf functions is the key search of the table model; the interpreter on the bodies of MapOf.Load / Map.Load printed from the working tree computes it, for every heap and key)" % lm, lok_, llog_)
+    if run.pid == "C08":
+        sok_, slog_ = R.lake_build(run, ["CacheVerif.Proofs.DeepSize"], timeout=900)
+        run.oblige("lake build CacheVerif.Proofs.DeepSize (the interpreter on the bodies of sumSize of both tables, printed from the working tree, returns the sum of the counter stripes, for every heap)", sok_, slog_)
     for tm in TRACE.get(run.pid, []):
         tok_, tlog_ = R.lake_build(run, [tm], timeout=900)
         run.oblige("lake build %s (the concurrent cache model M5, run by one thread, computes the sequential step and takes exactly the atomic actions the tracing interpreter records on the method bodies printed from the working tree)" % tm, tok_, tlog_)
